@@ -1,6 +1,7 @@
 -- driver for C13: summary figures of the report writers (see GrcovModel/Drv/C13.lean)
 import GrcovModel.Drv.C13
 import GrcovModel.Drv.C13Md
+import GrcovModel.Drv.C13Html
 
 /-- part drivers first, then the property's own ops -/
 def dispatch (line : String) : String :=
@@ -14,6 +15,8 @@ def dispatch (line : String) : String :=
   | "c13.md.html" :: args => Grcov.Drv.C13Md.handleHtml args
   | "c13.md.fig" :: args => Grcov.Drv.C13Md.handleFig args
   | "c13.md.files" :: args => Grcov.Drv.C13Md.handleFiles args
+  | "c13.html.printed2" :: args => Grcov.Drv.C13Html.handlePrinted2 args
+  | "c13.html.rows" :: args => Grcov.Drv.C13Html.handleRows args
   | _ => Grcov.Drv.C13.step line
 
 partial def loop (h : IO.FS.Stream) (out : IO.FS.Stream) : IO Unit := do
